@@ -27,12 +27,11 @@ def layout(spec):
     offs = []
     cur = T
     for s in spec["slots"]:
-        if "offset" in s:
-            offs.append(s["offset"])
-        else:
-            offs.append(cur)
+        base = s["offset"] if "offset" in s else cur
+        offs.append(base)
         if s["type"] != 0:
-            cur = SF.norm(SF.zt(cur) + SF.zt(s["size"]))
+            # the end of data follows the block wherever it was placed (gapped foreign files)
+            cur = SF.norm(SF.zt(base) + SF.zt(s["size"]))
     return T, offs, cur
 
 
@@ -109,6 +108,8 @@ class SymFSApi:
             if s["type"] != 0 and s.get("payload") is not None:
                 p = s["payload"]
                 d.cur.put(off, p if not isinstance(p, (bytes, SBytes)) else list(items_of(p)))
+        for off, p in spec.get("extra", []):  # bytes between blocks that no table entry describes
+            d.cur.put(off, p if not isinstance(p, (bytes, SBytes)) else list(items_of(p)))
         # the declared end of data is the file length (compact file)
         d.cur.length = SF.norm(spec.get("length", end))
         d.sync()
@@ -163,6 +164,11 @@ class ConcFSApi:
                 if len(buf) < off:
                     buf.extend(b"\x00" * (off - len(buf)))
                 buf[off:off + len(p)] = p
+        for off, p in spec.get("extra", []):
+            p = bytes(p)
+            if len(buf) < off:
+                buf.extend(b"\x00" * (off - len(buf)))
+            buf[off:off + len(p)] = p
         total = spec.get("length", end)
         if len(buf) < total:
             buf.extend(b"\x00" * (total - len(buf)))
